@@ -407,6 +407,24 @@ def sep_probe_scene(rng, min_sep, eps, base=1000.0, order='asc'):
     return {'rows': rows, 'names': ['a'], 'order': order, 'fam': 'sepprobe', 'h2': float(h2)}
 
 
+def tri_plus_two_heights_scene(rng):
+    """A low thick group that splits in three + a higher group (>= 30 hits) made of exactly two distinct
+    heights (the number of mixture components is capped by the number of distinct heights)."""
+    rows = []
+    n = int(rng.integers(60, 90))
+    h2 = float(rng.choice([6000.0, 9000.0]))
+    for t in range(n):
+        dt = -t * 10.0
+        hs = []
+        for j in range(3):
+            if rng.uniform() < 0.8:
+                hs.append(1000.0 + 400.0 * j + rng.normal(0, 25))
+        hs.append(h2 + 60.0 * (t % 2))
+        for k, h in enumerate(sorted(float(x) for x in hs)):
+            rows.append(['a', dt, h, k + 1])
+    return {'rows': dedupe(rows), 'names': ['a'], 'order': 'asc', 'fam': 'tri_plus_two'}
+
+
 def many_slices_scene(rng):
     """> 100 slices with the lowest group split by the mixture model (needs PRMS_MANY_SLICES)."""
     rows = []
